@@ -490,20 +490,26 @@ static void
 coap_free_resource(coap_resource_t *resource) {
   coap_attr_t *attr, *tmp;
   coap_subscription_t *obs, *otmp;
+  coap_context_t *context;
 
   assert(resource);
 
-  if (!resource->context->observe_no_clear) {
+  /* NULL for a resource that was never added to a context (coap_delete_resource() allows that) */
+  context = resource->context;
+  /* only a resource that a context knows can have been observed */
+  assert(context || !resource->subscribers);
+
+  if (context && !context->observe_no_clear) {
     coap_resource_notify_observers_lkd(resource, NULL);
-    coap_notify_observers(resource->context, resource, COAP_DELETING_RESOURCE);
+    coap_notify_observers(context, resource, COAP_DELETING_RESOURCE);
   }
 
-  if (resource->context->resource_deleted)
-    resource->context->resource_deleted(resource->context, resource->uri_path,
-                                        resource->context->observe_user_data);
+  if (context && context->resource_deleted)
+    context->resource_deleted(context, resource->uri_path,
+                              context->observe_user_data);
 
-  if (resource->context->release_userdata && resource->user_data) {
-    coap_lock_callback(resource->context, resource->context->release_userdata(resource->user_data));
+  if (context && context->release_userdata && resource->user_data) {
+    coap_lock_callback(context, context->release_userdata(resource->user_data));
   }
 
   /* delete registered attributes */
@@ -514,9 +520,9 @@ coap_free_resource(coap_resource_t *resource) {
 
   /* free all elements from resource->subscribers */
   LL_FOREACH_SAFE(resource->subscribers, obs, otmp) {
-    if (resource->context->observe_deleted)
-      resource->context->observe_deleted(obs->session, obs,
-                                         resource->context->observe_user_data);
+    if (context && context->observe_deleted)
+      context->observe_deleted(obs->session, obs,
+                               context->observe_user_data);
     coap_session_release_lkd(obs->session);
     coap_delete_pdu(obs->pdu);
     coap_delete_cache_key(obs->cache_key);
